@@ -70,6 +70,7 @@ func runC19(c *report.Ctx) {
 	// ---- (3) pointer with error / from map -------------------------------------------------------
 	rulePtrWithErr(c)
 	ruleNilOnSuccess(c)
+	ruleBalanceMapCoversReadyWallets(c)
 	ruleSelectionResetOnDelete(c)
 
 	// ---- (4) containment ------------------------------------------------------------------------
